@@ -335,8 +335,8 @@ def sigD7 (o : Obs) : Bool :=
   | some fm => !isActionMapping fm && fm.to.any isActionKey
   | none => false
 
-/-- H1: in every mapping all output keys before the last are modifiers -/
-def layoutH1 (L : Layout) : Bool := L.all fun m => m.to.dropLast.all fun y => !isActionKey y
+/-- H1: a mapping that is not key-producing (output empty or ending in a modifier) outputs modifiers only -/
+def layoutH1 (L : Layout) : Bool := L.all fun m => isActionMapping m || m.to.all fun y => !isActionKey y
 
 /-- H2: every mapping with a non-empty absorbing list is key-producing -/
 def layoutH2 (L : Layout) : Bool := L.all fun m => m.absorbing.isEmpty || isActionMapping m
